@@ -246,7 +246,8 @@ pub fn run_unixapi(out: &mut dyn Write) {
                 let _ = tx.send(crate::util::catch(|| rb.run().map_err(|e| e.0)));
             });
             let t0 = std::time::Instant::now();
-            while !to_ccp.is_empty() && t0.elapsed() < Duration::from_secs(3) { std::thread::sleep(Duration::from_millis(2)); }
+            // until the backlog is drained and the five callbacks it calls for were made (or three seconds passed)
+            while (!to_ccp.is_empty() || log.lock().unwrap().len() < 5) && t0.elapsed() < Duration::from_secs(3) { std::thread::sleep(Duration::from_millis(2)); }
             std::thread::sleep(Duration::from_millis(40));
             h.store(false, Ordering::SeqCst);
             match rx.recv_timeout(Duration::from_secs(4)) { Ok(Some(_)) => {} _ => return None }
